@@ -17,6 +17,7 @@ package c06
 
 import (
 	"fmt"
+	"os"
 	"testing"
 
 	"pgregory.net/rapid"
@@ -91,27 +92,48 @@ const (
 	dmsymlink = 0x02000000
 )
 
-var victims = []victim{
-	{path: []string{"f1"}, name: "f1", alt: "g1", perm: 0o644},
+var fileVictims = []victim{
 	{path: []string{"f1"}, name: "f1", alt: "g1", perm: 0o644},
 	{path: []string{"d1", "f2"}, parent: []string{"d1"}, name: "f2", alt: "g2", perm: 0o600},
-	{path: []string{"empty"}, name: "empty", alt: "f1", perm: 0o644}, // renaming onto an existing file
+	{path: []string{"empty"}, name: "empty", alt: "l2", perm: 0o644}, // renaming onto an existing name
 	{path: []string{"fresh"}, name: "fresh", alt: "fresh2", perm: 0o644},
-	{path: []string{"d1"}, name: "d1", alt: "e1", dir: true, perm: dmdir | 0o755},
-	{path: []string{"d1", "d2"}, parent: []string{"d1"}, name: "d2", alt: "e2", dir: true, perm: dmdir | 0o755},
+	{path: []string{"d1", "fresh"}, parent: []string{"d1"}, name: "fresh", alt: "fresh2", perm: 0o666},
 	{path: []string{"l1"}, name: "l1", alt: "m1", perm: dmsymlink | 0o777, ext: "f1"},
+	{path: []string{"d1", "d2"}, parent: []string{"d1"}, name: "d2", alt: "e2", dir: true, perm: dmdir | 0o755},
+	{path: []string{"newdir"}, name: "newdir", alt: "newdir2", dir: true, perm: dmdir | 0o700},
 }
 
-// fids of a churn session
-const (
-	fU  = 1 // the fid the burst hammers
-	fU2 = 2 // a second fid of the same file, used like fU
-	fM  = 3 // the fid through which the file is removed / renamed / truncated
-	fP  = 4 // the parent directory (re-creates the file)
-	fT  = 5 // opened with OTRUNC inside the burst
-	fE  = 6 // an entry of the listed directory
-	fN  = 100
-)
+var dirVictims = []victim{
+	{path: []string{"d1"}, name: "d1", alt: "e1", dir: true, perm: dmdir | 0o755},
+	{path: []string{"d1", "d2"}, parent: []string{"d1"}, name: "d2", alt: "e2", dir: true, perm: dmdir | 0o755},
+	{name: "", dir: true}, // the root
+}
+
+// slot: one file the bursts work on, with its fids.
+type slot struct {
+	v    victim
+	two  bool   // a second hammered fid
+	u    uint32 // the fid the burst hammers
+	u2   uint32 // a second fid of the same file, used like u
+	m    uint32 // the fid through which the file is removed / renamed / truncated
+	p    uint32 // the parent directory (re-creates the file; for a listed directory: creates entries)
+	x    uint32 // opened with OTRUNC inside the burst / an entry of the listed directory
+	flip bool   // which name the file has after the renames generated so far
+}
+
+func newSlot(j int, v victim, two bool) *slot {
+	b := uint32(10 * (j + 1))
+	return &slot{v: v, two: two, u: b + 1, u2: b + 2, m: b + 3, p: b + 4, x: b + 5}
+}
+
+func (sl *slot) users() []uint32 {
+	if sl.two {
+		return []uint32{sl.u, sl.u, sl.u2}
+	}
+	return []uint32{sl.u}
+}
+
+const fN = 1000 // fids made by walks inside bursts
 
 func wst(f uint32, set func(*ref9p.Stat)) *ref9p.Msg {
 	m := &ref9p.Msg{Type: ref9p.Twstat, Fid: f, Stat: rawc.NoChangeStat()}
@@ -121,7 +143,7 @@ func wst(f uint32, set func(*ref9p.Stat)) *ref9p.Msg {
 
 // userOp: one request on the hammered fid.
 func userOp(t *rapid.T, f uint32, v *victim, nf *uint32) *ref9p.Msg {
-	switch rapid.SampledFrom([]string{"stat", "stat", "stat", "stat", "read", "read", "read", "read", "open", "open", "write", "walk", "walk", "wstat", "create", "clunk", "remove", "flush"}).Draw(t, "uop") {
+	switch rapid.SampledFrom([]string{"stat", "stat", "stat", "stat", "read", "read", "read", "read", "open", "open", "open", "write", "walk", "walk", "wstat", "create", "clunk", "remove", "flush"}).Draw(t, "uop") {
 	case "read":
 		return &ref9p.Msg{Type: ref9p.Tread, Fid: f,
 			Offset: rapid.SampledFrom([]uint64{0, 0, 0, 0, 1, 13, 61, 100, 4000, 4999, 5000, 1 << 40}).Draw(t, "off"),
@@ -168,59 +190,66 @@ func userOp(t *rapid.T, f uint32, v *victim, nf *uint32) *ref9p.Msg {
 	return &ref9p.Msg{Type: ref9p.Tstat, Fid: f}
 }
 
-// mutOp: one request that changes the file under the hammered fid through
-// another fid. flip remembers which name the file has after the renames so far.
-func mutOp(t *rapid.T, kind string, v *victim, flip *bool) *ref9p.Msg {
-	switch kind {
-	case "remove":
-		return &ref9p.Msg{Type: ref9p.Tremove, Fid: fM}
-	case "rename":
-		to := v.alt
-		if *flip {
-			to = v.name
-		}
-		*flip = !*flip
-		return wst(fM, func(s *ref9p.Stat) { s.Name = to })
-	case "trunc":
-		n := rapid.SampledFrom([]uint64{0, 0, 1, 3, 5000, 100000}).Draw(t, "tlen")
-		return wst(fM, func(s *ref9p.Stat) { s.Length = n })
-	case "otrunc":
-		return &ref9p.Msg{Type: ref9p.Topen, Fid: fT, Mode: 0x11}
-	case "chmod":
-		return wst(fM, func(s *ref9p.Stat) { s.Mode = rapid.SampledFrom([]uint32{0, 0o644, 0o200}).Draw(t, "mmode") })
-	case "recreate":
-		return &ref9p.Msg{Type: ref9p.Tcreate, Fid: fP, Name: v.name, Perm: v.perm, Mode: 0, Ext: v.ext}
-	case "entry-create":
-		return &ref9p.Msg{Type: ref9p.Tcreate, Fid: fP, Name: rapid.SampledFrom([]string{"n0", "n1"}).Draw(t, "ename"),
-			Perm: rapid.SampledFrom([]uint32{0o644, 0o644, dmdir | 0o755}).Draw(t, "eperm")}
-	case "entry-remove":
-		return &ref9p.Msg{Type: ref9p.Tremove, Fid: fE}
-	}
-	panic("mutOp " + kind)
+// mut: one request that changes the file of a slot through a fid other than
+// the hammered one.
+type mut struct {
+	kind string
+	sl   *slot
 }
 
-// burst interleaves nu requests on the hammered fid(s) with the mutators.
-func burst(t *rapid.T, v *victim, users []uint32, muts []string, nu int, flip *bool, nf *uint32) []*ref9p.Msg {
+func mutOp(t *rapid.T, mu mut) *ref9p.Msg {
+	sl := mu.sl
+	switch mu.kind {
+	case "remove":
+		return &ref9p.Msg{Type: ref9p.Tremove, Fid: sl.m}
+	case "rename":
+		to := sl.v.alt
+		if sl.flip {
+			to = sl.v.name
+		}
+		sl.flip = !sl.flip
+		return wst(sl.m, func(s *ref9p.Stat) { s.Name = to })
+	case "trunc":
+		n := rapid.SampledFrom([]uint64{0, 0, 1, 3, 5000, 100000}).Draw(t, "tlen")
+		return wst(sl.m, func(s *ref9p.Stat) { s.Length = n })
+	case "otrunc":
+		return &ref9p.Msg{Type: ref9p.Topen, Fid: sl.x, Mode: 0x11}
+	case "chmod":
+		return wst(sl.m, func(s *ref9p.Stat) { s.Mode = rapid.SampledFrom([]uint32{0, 0o644, 0o200}).Draw(t, "mmode") })
+	case "recreate":
+		return &ref9p.Msg{Type: ref9p.Tcreate, Fid: sl.p, Name: sl.v.name, Perm: sl.v.perm, Mode: 0, Ext: sl.v.ext}
+	case "entry-create":
+		return &ref9p.Msg{Type: ref9p.Tcreate, Fid: sl.p, Name: rapid.SampledFrom([]string{"n0", "n1"}).Draw(t, "ename"),
+			Perm: rapid.SampledFrom([]uint32{0o644, 0o644, dmdir | 0o755}).Draw(t, "eperm")}
+	case "entry-remove":
+		return &ref9p.Msg{Type: ref9p.Tremove, Fid: sl.x}
+	}
+	panic("mutOp " + mu.kind)
+}
+
+// burst interleaves nu requests on the hammered fids of the slots with the mutators.
+func burst(t *rapid.T, slots []*slot, muts []mut, nu int, nf *uint32) []*ref9p.Msg {
 	var ms []*ref9p.Msg
 	// positions of the mutators among the user requests
-	at := map[int][]string{}
-	for _, k := range muts {
+	at := map[int][]mut{}
+	for _, mu := range muts {
 		p := rapid.IntRange(0, nu).Draw(t, "mpos")
-		at[p] = append(at[p], k)
+		at[p] = append(at[p], mu)
 	}
 	// renames through one fid only alternate when they run one after the
 	// other: requests that share a tag do
 	serial := rapid.Bool().Draw(t, "serialmut")
 	for i := 0; i <= nu; i++ {
-		for _, k := range at[i] {
-			m := mutOp(t, k, v, flip)
-			if serial && (k == "rename" || k == "trunc") {
-				m.Tag = 0xFFF5
+		for _, mu := range at[i] {
+			m := mutOp(t, mu)
+			if serial && (mu.kind == "rename" || mu.kind == "trunc") {
+				m.Tag = uint16(0xFFE0 + mu.sl.u/10)
 			}
 			ms = append(ms, m)
 		}
 		if i < nu {
-			ms = append(ms, userOp(t, rapid.SampledFrom(users).Draw(t, "ufid"), v, nf))
+			sl := slots[rapid.IntRange(0, len(slots)-1).Draw(t, "uslot")]
+			ms = append(ms, userOp(t, rapid.SampledFrom(sl.users()).Draw(t, "ufid"), &sl.v, nf))
 		}
 	}
 	if rapid.IntRange(0, 7).Draw(t, "tagpool") == 0 {
@@ -244,134 +273,148 @@ func clunk(f uint32) *ref9p.Msg { return &ref9p.Msg{Type: ref9p.Tclunk, Fid: f} 
 // the first chunk of the part that is repeated.
 func churnSession(t *rapid.T, s *sess, target string) int {
 	s.open(target, 8192)
-	v := victims[rapid.IntRange(0, len(victims)-1).Draw(t, "victim")]
-	tmpl := rapid.SampledFrom([]string{"flip", "flip", "recreate", "recreate", "trunc", "dirlist"}).Draw(t, "template")
-	if tmpl == "dirlist" {
-		v = rapid.SampledFrom([]victim{victims[5], victims[6], {name: "", alt: "", dir: true}}).Draw(t, "dvictim")
-	}
-	if tmpl == "trunc" && v.dir {
-		v = victims[2]
-	}
+	tmpl := rapid.SampledFrom([]string{"flip", "flip", "recreate", "recreate", "recreate", "trunc", "dirlist"}).Draw(t, "template")
 	hx.Label("churn " + tmpl)
-	users := []uint32{fU}
-	two := rapid.Bool().Draw(t, "twousers")
-	if two {
-		users = []uint32{fU, fU, fU2}
+	// the files worked on: distinct names
+	pool := fileVictims
+	switch tmpl {
+	case "dirlist":
+		pool = dirVictims
+	case "trunc":
+		pool = fileVictims[:5]
 	}
-	omode := func(l string) uint8 {
-		if v.dir {
+	nslots := rapid.IntRange(1, min(4, len(pool))).Draw(t, "nslots")
+	if tmpl == "dirlist" {
+		nslots = rapid.IntRange(1, 2).Draw(t, "ndirs")
+	}
+	first := rapid.IntRange(0, len(pool)-1).Draw(t, "victim")
+	var slots []*slot
+	for j := 0; j < nslots; j++ {
+		slots = append(slots, newSlot(j, pool[(first+j)%len(pool)], rapid.IntRange(0, 2).Draw(t, "twousers") == 0))
+	}
+	omode := func(sl *slot, l string) uint8 {
+		if sl.v.dir {
 			return 0
 		}
 		return rapid.SampledFrom([]uint8{0, 0, 2, 1}).Draw(t, l)
 	}
-	opened := rapid.IntRange(0, 3).Draw(t, "opened") > 0
-	nu := func() int { return rapid.IntRange(3, 48).Draw(t, "nusers") }
+	opened := rapid.IntRange(0, 3).Draw(t, "opened") > 0 || tmpl == "trunc" || tmpl == "dirlist"
+	nu := func() int { return rapid.IntRange(3, 24).Draw(t, "nusers") * len(slots) }
+	walks := func() {
+		var ws []*ref9p.Msg
+		for _, sl := range slots {
+			ws = append(ws, walkTo(sl.u, sl.v.path), walkTo(sl.m, sl.v.path))
+			if sl.two {
+				ws = append(ws, walkTo(sl.u2, sl.v.path))
+			}
+		}
+		s.chunk("walks", ws...)
+	}
+	opens := func() {
+		if !opened {
+			return
+		}
+		var os []*ref9p.Msg
+		for _, sl := range slots {
+			os = append(os, &ref9p.Msg{Type: ref9p.Topen, Fid: sl.u, Mode: omode(sl, "om")})
+			if sl.two {
+				os = append(os, &ref9p.Msg{Type: ref9p.Topen, Fid: sl.u2, Mode: omode(sl, "om2")})
+			}
+		}
+		s.chunk("opens", os...)
+	}
 	var nf uint32 = fN
-	flip := false
 	from := 0
 	switch tmpl {
 	case "flip":
-		// persistent fids; the burst renames the file away and back
-		ws := []*ref9p.Msg{walkTo(fU, v.path), walkTo(fM, v.path)}
-		if two {
-			ws = append(ws, walkTo(fU2, v.path))
-		}
-		s.chunk("walks", ws...)
-		if opened {
-			os := []*ref9p.Msg{{Type: ref9p.Topen, Fid: fU, Mode: omode("om")}}
-			if two {
-				os = append(os, &ref9p.Msg{Type: ref9p.Topen, Fid: fU2, Mode: omode("om2")})
-			}
-			s.chunk("opens", os...)
-		}
+		// persistent fids; the burst renames the files away and back
+		walks()
+		opens()
 		nb := rapid.IntRange(1, 2).Draw(t, "nbursts")
 		for b := 0; b < nb; b++ {
-			var muts []string
-			for i, n := 0, rapid.IntRange(1, 6).Draw(t, "nmut"); i < n; i++ {
-				muts = append(muts, rapid.SampledFrom([]string{"rename", "rename", "rename", "trunc", "chmod"}).Draw(t, "mut"))
+			var muts []mut
+			for _, sl := range slots {
+				for i, n := 0, rapid.IntRange(1, 6).Draw(t, "nmut"); i < n; i++ {
+					muts = append(muts, mut{rapid.SampledFrom([]string{"rename", "rename", "rename", "trunc", "chmod"}).Draw(t, "mut"), sl})
+				}
 			}
-			k := s.chunk("BURST", burst(t, &v, users, muts, nu(), &flip, &nf)...)
+			k := s.chunk("BURST", burst(t, slots, muts, nu(), &nf)...)
 			if b == 0 {
 				from = k
 			}
 		}
 	case "recreate":
-		// every round: (re)create the file, take fresh fids, burst with a remove
-		from = s.chunk("parent", walkTo(fP, v.parent))
-		s.chunk("create", mutOp(t, "recreate", &v, &flip))
-		ws := []*ref9p.Msg{walkTo(fU, v.path), walkTo(fM, v.path)}
-		if two {
-			ws = append(ws, walkTo(fU2, v.path))
-		}
-		s.chunk("walks", ws...)
-		if opened {
-			os := []*ref9p.Msg{{Type: ref9p.Topen, Fid: fU, Mode: omode("om")}}
-			if two {
-				os = append(os, &ref9p.Msg{Type: ref9p.Topen, Fid: fU2, Mode: omode("om2")})
+		// every round: (re)create the files, take fresh fids, burst with the removes
+		var ps, cs, cl []*ref9p.Msg
+		var muts []mut
+		for _, sl := range slots {
+			ps = append(ps, walkTo(sl.p, sl.v.parent))
+			cs = append(cs, mutOp(t, mut{"recreate", sl}))
+			cl = append(cl, clunk(sl.u), clunk(sl.u2), clunk(sl.m), clunk(sl.p))
+			muts = append(muts, mut{"remove", sl})
+			for i, n := 0, rapid.IntRange(0, 2).Draw(t, "nmut"); i < n; i++ {
+				muts = append(muts, mut{rapid.SampledFrom([]string{"rename", "trunc", "chmod", "remove"}).Draw(t, "mut"), sl})
 			}
-			s.chunk("opens", os...)
 		}
-		muts := []string{"remove"}
-		for i, n := 0, rapid.IntRange(0, 2).Draw(t, "nmut"); i < n; i++ {
-			muts = append(muts, rapid.SampledFrom([]string{"rename", "trunc", "chmod", "remove"}).Draw(t, "mut"))
-		}
-		s.chunk("BURST", burst(t, &v, users, muts, nu(), &flip, &nf)...)
-		s.chunk("clunks", clunk(fU), clunk(fU2), clunk(fM), clunk(fP))
+		from = s.chunk("parents", ps...)
+		s.chunk("creates", cs...)
+		walks()
+		opens()
+		s.chunk("BURST", burst(t, slots, muts, nu(), &nf)...)
+		s.chunk("clunks", cl...)
 	case "trunc":
-		ws := []*ref9p.Msg{walkTo(fU, v.path), walkTo(fM, v.path)}
-		if two {
-			ws = append(ws, walkTo(fU2, v.path))
-		}
-		s.chunk("walks", ws...)
-		os := []*ref9p.Msg{{Type: ref9p.Topen, Fid: fU, Mode: rapid.SampledFrom([]uint8{0, 2}).Draw(t, "om")}}
-		if two {
-			os = append(os, &ref9p.Msg{Type: ref9p.Topen, Fid: fU2, Mode: omode("om2")})
-		}
-		s.chunk("opens", os...)
-		from = s.chunk("walk-T", walkTo(fT, v.path))
-		var muts []string
-		for i, n := 0, rapid.IntRange(1, 5).Draw(t, "nmut"); i < n; i++ {
-			muts = append(muts, rapid.SampledFrom([]string{"trunc", "trunc", "otrunc", "chmod"}).Draw(t, "mut"))
-		}
-		s.chunk("BURST", burst(t, &v, users, muts, nu(), &flip, &nf)...)
-		s.chunk("clunk-T", clunk(fT))
-	case "dirlist":
-		// the hammered fid is an open directory that is read from the start
-		// again and again while entries are created and removed (and the
-		// directory itself is renamed) by other requests of the burst
-		ws := []*ref9p.Msg{walkTo(fU, v.path), walkTo(fM, v.path)}
-		if two {
-			ws = append(ws, walkTo(fU2, v.path))
-		}
-		s.chunk("walks", ws...)
-		os := []*ref9p.Msg{{Type: ref9p.Topen, Fid: fU, Mode: 0}}
-		if two {
-			os = append(os, &ref9p.Msg{Type: ref9p.Topen, Fid: fU2, Mode: 0})
-		}
-		s.chunk("opens", os...)
-		if rapid.Bool().Draw(t, "firstread") {
-			s.chunk("read0", &ref9p.Msg{Type: ref9p.Tread, Fid: fU, Offset: 0, Count: 8168})
-		}
-		ename := rapid.SampledFrom([]string{"n0", "n1"}).Draw(t, "entry")
-		from = s.chunk("walks-PE", walkTo(fP, v.path), walkTo(fE, append(append([]string{}, v.path...), ename)))
-		muts := []string{"entry-create", "entry-remove"}
-		if v.name != "" {
-			for i, n := 0, rapid.IntRange(0, 2).Draw(t, "nren"); i < n; i++ {
-				muts = append(muts, "rename")
+		walks()
+		opens()
+		var ws, cl []*ref9p.Msg
+		var muts []mut
+		for _, sl := range slots {
+			ws = append(ws, walkTo(sl.x, sl.v.path))
+			cl = append(cl, clunk(sl.x))
+			for i, n := 0, rapid.IntRange(1, 5).Draw(t, "nmut"); i < n; i++ {
+				muts = append(muts, mut{rapid.SampledFrom([]string{"trunc", "trunc", "otrunc", "chmod"}).Draw(t, "mut"), sl})
 			}
 		}
-		n := nu()
-		ms := burst(t, &v, users, muts, n, &flip, &nf)
+		from = s.chunk("walks-x", ws...)
+		s.chunk("BURST", burst(t, slots, muts, nu(), &nf)...)
+		s.chunk("clunks-x", cl...)
+	case "dirlist":
+		// the hammered fids are open directories that are read from the
+		// start again and again while entries are created and removed (and
+		// the directory itself is renamed) by other requests of the burst
+		walks()
+		opens()
+		if rapid.Bool().Draw(t, "firstread") {
+			s.chunk("read0", &ref9p.Msg{Type: ref9p.Tread, Fid: slots[0].u, Offset: 0, Count: 8168})
+		}
+		var ws, cl []*ref9p.Msg
+		var muts []mut
+		for _, sl := range slots {
+			ename := rapid.SampledFrom([]string{"n0", "n1"}).Draw(t, "entry")
+			ws = append(ws, walkTo(sl.p, sl.v.path), walkTo(sl.x, append(append([]string{}, sl.v.path...), ename)))
+			cl = append(cl, clunk(sl.p), clunk(sl.x))
+			muts = append(muts, mut{"entry-create", sl}, mut{"entry-remove", sl})
+			if sl.v.name != "" {
+				for i, n := 0, rapid.IntRange(0, 2).Draw(t, "nren"); i < n; i++ {
+					muts = append(muts, mut{"rename", sl})
+				}
+			}
+		}
+		from = s.chunk("walks-px", ws...)
+		ms := burst(t, slots, muts, nu(), &nf)
 		// most of the user requests are reads of the listing
 		for _, m := range ms {
-			if (m.Fid == fU || m.Fid == fU2) && m.Type != ref9p.Tread && rapid.IntRange(0, 2).Draw(t, "toread") > 0 {
+			hammered := false
+			for _, sl := range slots {
+				hammered = hammered || m.Fid == sl.u || m.Fid == sl.u2
+			}
+			if hammered && m.Type != ref9p.Tread && m.Type != ref9p.Tflush && rapid.IntRange(0, 2).Draw(t, "toread") > 0 {
 				*m = ref9p.Msg{Type: ref9p.Tread, Tag: m.Tag, Fid: m.Fid,
 					Offset: rapid.SampledFrom([]uint64{0, 0, 0, 0, 0, 61, 122, 8168}).Draw(t, "doff"),
 					Count:  rapid.SampledFrom([]uint32{8168, 8168, 300, 100, 62, 1}).Draw(t, "dcount")}
 			}
 		}
 		s.chunk("BURST", ms...)
-		s.chunk("clunks-PE", clunk(fP), clunk(fE))
+		s.chunk("clunks-px", cl...)
 	}
 	return from
 }
@@ -507,5 +550,18 @@ func genFlood(t *rapid.T, target string) *Case {
 	return c
 }
 
-func TestPropChurn(t *testing.T) { prop("churn", genChurn, 150, 1500)(t) }
-func TestPropFlood(t *testing.T) { prop("flood", genFlood, 12, 150)(t) }
+// The per-fid state that bursts on one fid share lives in Ufs; the scripted
+// implementation has none, so it gets a small share of the churn cases.
+func TestPropChurn(t *testing.T) {
+	prop("churn", genChurn, 220, 1500, "script", "ufs", "ufs", "ufs", "ufs", "ufs", "ufs", "ufs")(t)
+}
+
+// A failing flood case costs patience (30 s) each time it is run again:
+// no time is spent on minimizing it.
+func TestPropFlood(t *testing.T) {
+	if os.Getenv("VERIF_SHRINKTIME") == "" {
+		os.Setenv("VERIF_SHRINKTIME", "1ms")
+		defer os.Unsetenv("VERIF_SHRINKTIME")
+	}
+	prop("flood", genFlood, 12, 150)(t)
+}
